@@ -89,6 +89,7 @@ type Violation struct {
 	Known    string // known-finding id if any
 	Sched    []schedEv
 	Multi    bool
+	Points   []string
 }
 
 type InputVal struct {
@@ -156,6 +157,8 @@ type Engine struct {
 	onceDone  map[*Value]bool
 	syncMaps  map[*Value]*Map
 	schedLog  []schedEv
+	pointLog  []string
+	pointTrace bool
 	siteCache map[string]bool
 	pkgDir    string
 	decided   map[*Term]bool
@@ -692,6 +695,7 @@ func (e *Engine) recordViolation(label, msg, kind, known string) {
 	v.Observes = append([]string(nil), e.observes...)
 	v.Sched = append([]schedEv(nil), e.schedLog...)
 	v.Multi = e.multi
+	v.Points = append([]string(nil), e.pointLog...)
 	if kind == "known" {
 		if e.stats.KnownSeen == nil {
 			e.stats.KnownSeen = map[string]int{}
@@ -833,6 +837,7 @@ func (e *Engine) resetPath() {
 	e.onceDone = map[*Value]bool{}
 	e.syncMaps = map[*Value]*Map{}
 	e.schedLog = nil
+	e.pointLog = nil
 	e.decided = map[*Term]bool{}
 	e.concretized = map[*Term]*big.Int{}
 	e.usedVars = map[string]bool{}
